@@ -266,7 +266,7 @@ fn case(tier: Tier, rng: &mut Rng, rep: &mut Report) {
 }
 
 pub fn run(tier: Tier, seed: u64) -> MonOut {
-    let n = tier.n(2_000, 100_000);
+    let n = tier.n(30_000, 1_000_000);
     let mut rep = par_cases(seed, n, |_i, rng, rep| case(tier, rng, rep));
     let mut d = Report::new();
     super::c01::run_directed("C04", &mut d, check_query);
